@@ -7,10 +7,13 @@
  *   xmlhand <n>                      followed by n "D ..." lines: XML round trip (buffer and file) of that list
  *                                    strings may be written @<len>[:e] = generated string of that length (e: with &<>"')
  *   topo synthetic <description> | topo xml <path>
+ *   topob [nofilter-io] synthetic <description> | topob [noio] xml <path>   B loaded on its own instead of dup(A)
  *   a <edit...>                      edit applied to A (before B is duplicated from it)
  *   b <edit...>                      edit applied to B = dup(A)
  *   build                            diff_build(A,B), apply to a dup of A, rebuild, reverse, XML round trip
  *   hand <flags> <n>                 followed by n "D ..." lines: hand-built list applied to a dup of A
+ *   misuse                           build/apply on an unloaded topology, with invalid flags, on an adopted topology
+ *   xmlload <n> <hex document>       load_xmlbuffer of an arbitrary document; if it loads: re-export and reload
  *   end
  * Every case runs in a forked child so that a crash of the library is an
  * observation ("X sig=11" / "X exit=97"), not the end of the run.
@@ -315,6 +318,46 @@ static int do_edit(hwloc_topology_t t, char *line)
     loc.type = HWLOC_LOCATION_TYPE_CPUSET; loc.location.cpuset = ini->cpuset;
     return hwloc_memattr_set_value(t, id, node, &loc, 0, v);
   }
+  if (!strcmp(op, "tinfoname") && sscanf(line, "%u %1023s", &k, s1) == 2) {
+    if (k >= t->infos.count) return -1;
+    set_str(&t->infos.array[k].name, unhx(s1)); return 0;
+  }
+  if (!strcmp(op, "cpukindi")) {   /* cpukindi <mask> <eff> <name> <value>: with one info */
+    struct hwloc_infos_s infos; struct hwloc_info_s one; hwloc_bitmap_t b; int r;
+    if (sscanf(line, "%llx %d %1023s %1023s", &v, &d, s1, s2) != 4) return -1;
+    one.name = unhx(s1); one.value = unhx(s2); infos.array = &one; infos.count = 1; infos.allocated = 1;
+    b = hwloc_bitmap_alloc(); hwloc_bitmap_from_ulong(b, (unsigned long)v);
+    r = hwloc_cpukinds_register(t, b, d, &infos, 0); hwloc_bitmap_free(b); free(one.name); free(one.value); return r;
+  }
+  if (!strcmp(op, "distsub")) {    /* distsub <depth> <kind> <seed> <first> <count>: matrix over a sub-range of a level */
+    int d1; unsigned long kind; unsigned seed, first, n, x, y; hwloc_obj_t *objs; hwloc_uint64_t *vals; int r; hwloc_distances_add_handle_t h;
+    if (sscanf(line, "%d %lu %u %u %u", &d1, &kind, &seed, &first, &n) != 5) return -1;
+    if (n < 2 || n > 16 || first + n > hwloc_get_nbobjs_by_depth(t, d1)) return -1;
+    objs = malloc(n * sizeof(*objs)); vals = malloc(n * n * sizeof(*vals));
+    for (x = 0; x < n; x++) objs[x] = hwloc_get_obj_by_depth(t, d1, first + x);
+    for (x = 0; x < n; x++) for (y = 0; y < n; y++) vals[x * n + y] = x == y ? 10 : 20 + ((x * 7 + y * 3 + seed) % 5);
+    h = hwloc_distances_add_create(t, NULL, kind, 0);
+    r = h ? hwloc_distances_add_values(t, h, n, objs, vals, 0) : -1;
+    if (!r) r = hwloc_distances_add_commit(t, h, 0);
+    free(objs); free(vals); return r;
+  }
+  if (!strcmp(op, "mattrreg") && sscanf(line, "%1023s %llu", s1, &v) == 2) {
+    char *n = unhx(s1); hwloc_memattr_id_t id; int r = hwloc_memattr_register(t, n, (unsigned long)v, &id); free(n); return r;
+  }
+  if (!strcmp(op, "mattrt")) {     /* mattrt <attr> <target depth> <target idx> <value>: any object as target, no initiator */
+    unsigned id; int tdep; unsigned tidx; hwloc_obj_t tg;
+    if (sscanf(line, "%u %d %u %llu", &id, &tdep, &tidx, &v) != 4) return -1;
+    tg = hwloc_get_obj_by_depth(t, tdep, tidx); if (!tg) return -1;
+    return hwloc_memattr_set_value(t, id, tg, NULL, 0, v);
+  }
+  if (!strcmp(op, "mattro")) {     /* mattro <attr> <numa idx> <initiator depth> <initiator idx> <value>: object initiator */
+    unsigned id, tgt; int idep; unsigned iidx; struct hwloc_location loc; hwloc_obj_t node, ini;
+    if (sscanf(line, "%u %u %d %u %llu", &id, &tgt, &idep, &iidx, &v) != 5) return -1;
+    node = hwloc_get_obj_by_type(t, HWLOC_OBJ_NUMANODE, tgt); ini = hwloc_get_obj_by_depth(t, idep, iidx);
+    if (!node || !ini) return -1;
+    loc.type = HWLOC_LOCATION_TYPE_OBJECT; loc.location.object = ini;
+    return hwloc_memattr_set_value(t, id, node, &loc, 0, v);
+  }
   /* object edits: <depth> <index> ... */
   if (sscanf(line, "%d %u", &d, &i) != 2) return -1;
   o = hwloc_get_obj_by_depth(t, d, i);
@@ -354,6 +397,10 @@ static int do_edit(hwloc_topology_t t, char *line)
     char *n = unhx(s1); hwloc_obj_t m = hwloc_topology_insert_misc_object(t, o, n); free(n); return m ? 0 : -1;
   }
   if (!strcmp(op, "osindex") && sscanf(line, "%u", &k) == 1) { o->os_index = k; return 0; }
+  if (!strcmp(op, "attrpoke") && sscanf(line, "%u %llu", &k, &v) == 2) {   /* one byte of the attribute union diff.c memcmp()s */
+    if (k >= tattr_size(o)) return -1;
+    ((unsigned char *)o->attr)[k] ^= (unsigned char)(v ? v : 1); return 0;
+  }
   if (!strcmp(op, "cachesize") && sscanf(line, "%llu", &v) == 1) {
     if (!hwloc_obj_type_is_cache(o->type)) return -1;
     o->attr->cache.size = v; return 0;
@@ -375,7 +422,12 @@ static void xml_roundtrip(hwloc_topology_diff_t diff)
   hwloc_topology_diff_t xd = NULL; char *buf = NULL, *ref = NULL; int len = 0, r;
   char path[] = "/tmp/hwv-diff-XXXXXX"; int fd;
   r = hwloc_topology_diff_export_xmlbuffer(diff, refname, &buf, &len);
-  if (r < 0) { printf("xml export=-1\n"); return; }
+  if (r < 0) {
+    /* the file variant must refuse the list as well */
+    fd = mkstemp(path); if (fd >= 0) close(fd);
+    r = hwloc_topology_diff_export_xml(diff, refname, path); unlink(path);
+    printf("xml export=-1 fexport=%d\n", r); return;
+  }
   /* strnlen: a cut document may not be terminated inside the reported length */
   printf("xml export=0 len=%d strlen=%lu", len, (unsigned long)strnlen(buf, (size_t)(len > 0 ? len : 0)) + 1);
   r = hwloc_topology_diff_load_xmlbuffer(buf, len, &xd, &ref);
@@ -400,6 +452,12 @@ static void xml_roundtrip(hwloc_topology_diff_t diff)
     free(ref); hwloc_topology_diff_destroy(xd);
     unlink(path);
   }
+  { hwloc_topology_diff_t nd = NULL; char *nr = NULL;
+    r = hwloc_topology_diff_export_xml(diff, refname, "/nonexistent-hwv-dir/diff.xml");
+    printf(" fbad=%d", r);
+    r = hwloc_topology_diff_load_xml("/nonexistent-hwv-dir/diff.xml", &nd, &nr);
+    printf(" lbad=%d", r);
+    if (r == 0) { free(nr); hwloc_topology_diff_destroy(nd); } }
   putchar('\n');
   hwloc_free_xmlbuffer(A, buf);
 }
@@ -445,6 +503,56 @@ static void free_hand(hwloc_topology_diff_t d)
   hwloc_topology_diff_destroy(d);
 }
 
+static const char *errname(int e) { return e == EINVAL ? "EINVAL" : e == EPERM ? "EPERM" : e == 0 ? "0" : "other"; }
+
+/* the argument checks of build and apply */
+static void do_misuse(void)
+{
+  hwloc_topology_t U = NULL, P = NULL; hwloc_topology_diff_t d = (hwloc_topology_diff_t)(void *)&d, keep; int r, e;
+  need_B();
+  dump_full("A", A); dump_full("B", B); dump_state("A", A);
+  hwloc_topology_init(&U);
+  keep = d; errno = 0; r = hwloc_topology_diff_build(U, B, 0, &d); e = errno;
+  printf("misuse build-unloaded-first %d %s untouched=%d\n", r, errname(e), d == keep);
+  errno = 0; r = hwloc_topology_diff_build(A, U, 0, &d); e = errno;
+  printf("misuse build-unloaded-second %d %s untouched=%d\n", r, errname(e), d == keep);
+  errno = 0; r = hwloc_topology_diff_build(A, B, 1, &d); e = errno;
+  printf("misuse build-flags %d %s untouched=%d\n", r, errname(e), d == keep);
+  errno = 0; r = hwloc_topology_diff_apply(U, NULL, 0); e = errno;
+  printf("misuse apply-unloaded %d %s\n", r, errname(e));
+  hwloc_topology_destroy(U);
+  hwloc_topology_dup(&P, A);
+  P->adopted_shmem_addr = (void *)P;     /* what hwloc_shmem_topology_adopt() sets; nothing else is read before the check */
+  errno = 0; r = hwloc_topology_diff_apply(P, NULL, 0); e = errno;
+  P->adopted_shmem_addr = NULL;
+  printf("misuse apply-adopted %d %s\n", r, errname(e));
+  dump_state("M", P);
+  hwloc_topology_destroy(P);
+  fflush(stdout);
+}
+
+/* an arbitrary document given to the diff importer */
+static void do_xmlload(char *arg)
+{
+  hwloc_topology_diff_t xd = NULL, xd2 = NULL; char *ref = NULL, *ref2 = NULL, *doc, *buf = NULL; int r, len = 0; size_t n;
+  { char *sp = strchr(arg, ' '); doc = unhx(sp ? sp + 1 : arg); }
+  if (!doc) { printf("xmlload bad\n"); return; }
+  n = strlen(doc);
+  { char *exact = malloc(n + 1); memcpy(exact, doc, n + 1); free(doc); doc = exact; }   /* exactly sized: ASan sees over-reads */
+  r = hwloc_topology_diff_load_xmlbuffer(doc, (int)n + 1, &xd, &ref);
+  printf("xmlload %d n=%u ref=", r, r < 0 ? 0 : diff_len(xd)); hx(r < 0 ? NULL : ref); putchar('\n');
+  if (r == 0) {
+    r = hwloc_topology_diff_export_xmlbuffer(xd, ref, &buf, &len);
+    if (r == 0) {
+      r = hwloc_topology_diff_load_xmlbuffer(buf, len, &xd2, &ref2);
+      printf("xmlreload %d same=%d refsame=%d\n", r, r < 0 ? 0 : diff_same(xd, xd2), r < 0 ? 0 : streq(ref, ref2));
+      hwloc_free_xmlbuffer(A, buf); free(ref2); hwloc_topology_diff_destroy(xd2);
+    } else printf("xmlreload export=-1\n");
+  }
+  free(ref); hwloc_topology_diff_destroy(xd); free(doc);
+  fflush(stdout);
+}
+
 static int run_case(FILE *in)
 {
   char line[8192]; int dumped = 0;
@@ -456,6 +564,7 @@ static int run_case(FILE *in)
       char e[8] = "1", im[8] = ""; sscanf(line + 11, "%7s %7s", e, im);
       setenv("HWLOC_LIBXML_EXPORT", e, 1); setenv("HWLOC_LIBXML_IMPORT", im[0] ? im : e, 1);
     }
+    else if (!strcmp(line, "xmlverbose")) setenv("HWLOC_XML_VERBOSE", "1", 1);
     else if (!strncmp(line, "xmlhand ", 8)) {
       unsigned cnt = 0, k; hwloc_topology_diff_t first = NULL, last = NULL, e2;
       sscanf(line + 8, "%u", &cnt);
@@ -478,6 +587,19 @@ static int run_case(FILE *in)
       else if (!strncmp(line + 5, "xml ", 4)) { if (hwloc_topology_set_xml(A, line + 9) < 0) { printf("topo error\n"); return 0; } }
       if (hwloc_topology_load(A) < 0) { printf("topo error\n"); return 0; }
     } else if (!A) { printf("notopo\n"); return 0; }
+    else if (!strncmp(line, "topob ", 6)) {
+      char *spec = line + 6; int noio = 0;
+      if (!strncmp(spec, "noio ", 5)) { noio = 1; spec += 5; }
+      if (B) hwloc_topology_destroy(B);
+      hwloc_topology_init(&B);
+      hwloc_topology_set_all_types_filter(B, HWLOC_TYPE_FILTER_KEEP_ALL);
+      if (noio) hwloc_topology_set_io_types_filter(B, HWLOC_TYPE_FILTER_KEEP_NONE);
+      if (!strncmp(spec, "synthetic ", 10)) { if (hwloc_topology_set_synthetic(B, spec + 10) < 0) { printf("topo error\n"); return 0; } }
+      else if (!strncmp(spec, "xml ", 4)) { if (hwloc_topology_set_xml(B, spec + 4) < 0) { printf("topo error\n"); return 0; } }
+      if (hwloc_topology_load(B) < 0) { printf("topo error\n"); return 0; }
+    }
+    else if (!strcmp(line, "misuse")) do_misuse();
+    else if (!strncmp(line, "xmlload ", 8)) do_xmlload(line + 8);
     else if (!strncmp(line, "a ", 2)) { if (do_edit(A, line + 2) < 0) printf("editfail %s\n", line); }
     else if (!strncmp(line, "b ", 2)) { need_B(); if (do_edit(B, line + 2) < 0) printf("editfail %s\n", line); }
     else if (!strcmp(line, "build")) { do_build(); dumped = 1; }
